@@ -164,7 +164,8 @@ def main(argv=None):
     lines = []
     violations = []
     known_hits = {}
-    os.makedirs(os.path.join(ROOT, "replays"), exist_ok=True)
+    OUT = os.environ.get("VERIF_OUT_DIR", ROOT)     # seeded-change runs write evidence/replays elsewhere
+    os.makedirs(os.path.join(OUT, "replays"), exist_ok=True)
 
     def record_violation(name, detail, inputs, confirmed, extra=None):
         e = match_known(known, name, inputs)
@@ -172,7 +173,7 @@ def main(argv=None):
             known_hits.setdefault(e["what"], []).append(name)
             return
         idx = len(violations) + 1
-        path = os.path.join(ROOT, "replays", "%s_%s_%d.json" % (prop, tier, idx))
+        path = os.path.join(OUT, "replays", "%s_%s_%d.json" % (prop, tier, idx))
         doc = {"property": prop, "obligation": name, "detail": detail, "inputs": inputs, "confirmed_on_real_code": confirmed}
         if extra:
             doc.update(extra)
@@ -262,8 +263,8 @@ def main(argv=None):
         "wall_s": round(time.time() - t0, 2),
         "violations": len(violations),
     }
-    os.makedirs(os.path.join(ROOT, "evidence"), exist_ok=True)
-    with open(os.path.join(ROOT, "evidence", prop + ".json"), "w") as f:
+    os.makedirs(os.path.join(OUT, "evidence"), exist_ok=True)
+    with open(os.path.join(OUT, "evidence", prop + ".json"), "w") as f:
         json.dump(ev, f, indent=1, default=repr)
     for l in lines:
         print(l)
